@@ -4,6 +4,8 @@ from __future__ import annotations
 
 import ast
 
+from sa.core import register_cache  # noqa: E402
+
 from sa.cfg import CFG, decompose
 from sa.core import (
     AnalysisError,
@@ -176,7 +178,7 @@ EXH_EXEMPT = {
     ("util.solver", "Expression", frozenset({"Sum", "Product"})): (1, "values of the variable->solution map are constructed in the same function as Constant(...) or Variable(...) only"),
     ("util.solver", "Expression", frozenset({"Variable"})): (1, "the substitution map has an entry for every variable id that occurs in the equations (built from the same equations)"),
 }
-_EXH_USED = {}
+_EXH_USED = register_cache({})
 
 
 def exh_exempt_reason(func, root, missing_names):
@@ -383,7 +385,7 @@ def cfg_of(f):
     return c
 
 
-_SPECIALISED = {}
+_SPECIALISED = register_cache({})
 
 
 def specialised(p, cls, name, depth=3):
@@ -394,12 +396,13 @@ def specialised(p, cls, name, depth=3):
     from sa.cfg import _clone, _set_parents
     from sa.core import Func
 
-    key = (id(p), cls.qualname, name)
-    if key in _SPECIALISED:
-        return _SPECIALISED[key]
+    cache = p.__dict__.setdefault("_specialised_methods", {})  # per project object (ids of dead projects are re-used)
+    key = (cls.qualname, name)
+    if key in cache:
+        return cache[key]
     m = p.lookup_method(cls, name)
     if m is None:
-        _SPECIALISED[key] = None
+        cache[key] = None
         return None
     node = _clone(m.node)
     selfname = m.params[0] if m.params else "self"
@@ -500,7 +503,7 @@ def specialised(p, cls, name, depth=3):
     for x in ast.walk(node):
         if isinstance(x, (ast.FunctionDef, ast.Lambda)) and x is not node:
             p.func_of_node.setdefault(id(x), Func(qualname=f"{f.qualname}.<nested>", module=m.module, node=x, cls=None, parent=f))
-    _SPECIALISED[key] = f
+    cache[key] = f
     return f
 
 
